@@ -1,10 +1,13 @@
 """C11 - virtual nodes and zero-order edges are inert (metamorphic + fault half)."""
 import collections
+import copy
 import random
+import re
 
 import networkx as nx
 
 from ..gen import mol as M
+from ..gen import grammar as G
 from ..oracles import V
 from .. import contracts
 from . import molcommon as MC
@@ -16,7 +19,9 @@ RULE = ('unique-label cut molecules (as C01) whose base graph gets 1-3 fragment-
         'all three constructors. Oracle: the fine molecule equals the ground truth and the molecule resolved without the '
         'insertions; every real coarse node still owns exactly the atoms of its own fragment (multiset of element + H '
         'count, fragment name, heavy-atom count); virtual nodes own no atoms. Fault half: the same insertion with order '
-        '1-4 must raise SyntaxError. distinct = (feature set, #heavy, #fragments); non-trivial = at least one virtual node.')
+        '1-4 must raise SyntaxError. Order-0 edges written through the multiplier syntax: the molecule as n unconnected copies '
+        '"{[#R](rest).|n}" whose anchor fragment carries a surplus self-complementary descriptor (a bond would form if the edge had an '
+        'order), and fragment-less nodes ".[#VX].([#VY]).|k". distinct = (feature set, #heavy, #fragments); non-trivial = at least one virtual node.')
 ASSUMPTIONS = ['fragment names are unique per coarse node in this workload, so a coarse node is identified by its name']
 MECHANISMS = [('cgsmiles.resolve', 'MoleculeResolver.resolve_disconnected_molecule'), ('cgsmiles.graph_utils', 'annotate_fragments'),
               ('cgsmiles.resolve', 'MoleculeResolver.edges_from_bonding_descrpt')]
@@ -31,6 +36,12 @@ def cases(seed, tier, shard, nshards):
     rng = random.Random(f'{seed}:C11:{tier}:{shard}')
     made = 0
     while made < SIZES[tier] // nshards:
+        if rng.random() < 0.12:
+            z = zero_multiplier_case(rng)
+            if z is not None:
+                made += 1
+                yield z
+            continue
         c = MC.random_cut_case(rng, rng.choice([3, 6, 10, 16]))
         if c is None:
             continue
@@ -44,6 +55,65 @@ def cases(seed, tier, shard, nshards):
         yield v
         if not fault and rng.random() < 0.15:
             yield dict(v, reuse=True, ctor='from_graph', sub=rng.randrange(10 ** 6), features=sorted(set(v['features']) | {'base_graph_object_reused'}))
+
+
+FIRST_ATOM = re.compile(r'^((?:[=#$:.\-]?\[[$<>!][^\]]*\][=#$:\-]?)*)(\[[^\]$<>!][^\]]*\]|Cl|Br|[A-Za-z])')
+
+
+def zero_multiplier_case(rng):
+    """order-0 edges written through the multiplier syntax `(...).|n`: (i) the whole molecule as n unconnected copies
+    '{[#R](rest).|n}', where the repeated anchor's fragment carries a surplus self-complementary descriptor, so that a bond
+    WOULD form if the edge between the copies had an order; (ii) fragment-less nodes '.[#VX].([#VY]).|k' appended."""
+    c = MC.random_cut_case(rng, rng.choice([3, 6, 10]), ctor='string')
+    if c is None:
+        return None
+    ast = copy.deepcopy(c['base_ast'])
+    if rng.random() < 0.5:
+        k = rng.choice([2, 3])
+        s = c['base_string'][:-1] + '.[#VX].([#VY]).|%d}' % k
+        return dict(c, kind='zero_mult', base_string=s, copies=1, virtual_names=['VX', 'VY'], alt_base_strings=[],
+                    features=sorted(set(c['features']) | {'virtual_nodes_by_zero_multiplier'}))
+    if any(e['rings'] or e['mult'] != 1 for e, _, _, _ in G._flat(ast)) or len(ast) < 2 or 'nested' in str(c['features']):
+        return None
+    root, rest = ast[0], ast[1:]
+    if root['branches']:
+        return None     # the multiplier repeats the anchor with its LAST branch only
+    n = rng.choice([2, 3, 4])
+    root['branches'].append(G.br(rest, order=rest[0]['bond'], mult=n, between=0))
+    rest[0]['bond'] = None
+    base_string = G.to_string([root])
+    # mechanisms of the open C05 findings (nested branch / ring bond inside a multiplied unit) are not this property's business
+    if G.features([root]) & {'nested_branch_in_mult_unit', 'ring_in_mult_unit', 'node_mult_after_bond_in_mult_unit',
+                             'nested_mult_after_nested_branch', 'ring_on_mult_anchor', 'branch_mult_in_mult_unit'}:
+        return None
+    name = root['name']
+    m = re.search(r'#%s=([^,}]*)' % re.escape(name), c['frag_string'])
+    fm = FIRST_ATOM.match(m.group(1)) if m else None
+    if not fm:
+        return None
+    text = m.group(1)[:fm.end()] + '[$zz]' + m.group(1)[fm.end():]
+    frag_string = c['frag_string'][:m.start(1)] + text + c['frag_string'][m.end(1):]
+    return dict(c, kind='zero_mult', base_string=base_string, frag_string=frag_string, copies=n, virtual_names=[], alt_base_strings=[],
+                features=sorted(set(c['features']) | {'copies_by_zero_multiplier'}))
+
+
+def run_zero_mult(case):
+    contracts.clear()
+    viol = []
+    txt = MC.case_text(case)
+    truth = MC.truth_from_json(case['truth'])
+    want = nx.disjoint_union_all([truth] * case['copies'])
+    res = MC.resolve_case(case)
+    if res['error']:
+        viol.append(V('c11.exception.' + res['error'].split(':')[0], f'{txt} raised {res["error"]}'))
+    else:
+        if res['problems'] or not M.same_molecule(res['heavy'], want):
+            viol.append(V('c11.molecule_changed', f'{txt} -> {M.describe(res["heavy"])}; expected {case["copies"]} unconnected copies of {M.describe(truth)}'))
+        for k, d in res['cg'].nodes(data=True):
+            if d.get('fragname') in case['virtual_names'] and d.get('graph') is not None and len(d['graph']):
+                viol.append(V('c11.virtual_node_has_atoms', f'{txt}: fragment-less node {d.get("fragname")} owns atoms'))
+    contracts.clear()
+    return {'violations': viol, 'nontrivial': True, 'sample': txt, 'cls': ('zero_mult', tuple(case['features']), case['copies'])}
 
 
 def owned(cg, aa):
@@ -106,6 +176,8 @@ def run_reuse(case):
 def run(case):
     if case.get('reuse'):
         return run_reuse(case)
+    if case.get('kind') == 'zero_mult':
+        return run_zero_mult(case)
     contracts.clear()
     viol = []
     txt = MC.case_text(case)
